@@ -234,9 +234,11 @@ def entry_points(facts):
 def closure(facts, roots):
     seen = {}
     work = [b.key for b in roots]
+    # closures whose every use was expanded in place: nothing can run them (normalize.drop_dead_closures, N6)
+    dead = set((facts.meta.get('closures_dead') or []))
     while work:
         k = work.pop()
-        if k in seen:
+        if k in seen or k in dead:
             continue
         a = get_an(facts, k)
         if a is None:
